@@ -41,6 +41,12 @@ func (cp *CachedPlanner) hash(ctx *PlanningContext) hashKey {
 	s := format.NewBufferedFormatter().FormatSelectionSet(ctx.Operation.SelectionSet)
 	// a plan carries the type and the name of its operation, so they belong to the key
 	s = string(ctx.Operation.Operation) + " " + ctx.Operation.Name + "\n" + s
+	// and the default values of its variables
+	for _, vd := range ctx.Operation.VariableDefinitions {
+		if vd.DefaultValue != nil {
+			s += "\n$" + vd.Variable + " = " + vd.DefaultValue.String()
+		}
+	}
 	sha1 := sha1.Sum([]byte(s))
 	return sha1
 }
